@@ -4,6 +4,18 @@ and runs the kernel grid and the bounded index operation sequences. A sanitizer 
 (ub_checks / debug assertion) or a kernel-vs-scalar mismatch is a violation."""
 import json, os, subprocess, sys, time
 
+def run_retry(cmd, **kw):
+    """subprocess.run, retrying while the binary is momentarily missing / being written by a
+    concurrent build of the same workspace (bin/check C16 also builds membound-idx)."""
+    t0 = time.time()
+    while True:
+        try:
+            return subprocess.run(cmd, **kw)
+        except (FileNotFoundError, OSError) as ex:
+            if time.time() - t0 > 30 or (not isinstance(ex, FileNotFoundError) and getattr(ex, "errno", 0) != 26):
+                raise
+            time.sleep(0.2)
+
 def main():
     tier = sys.argv[1] if len(sys.argv) > 1 else os.environ.get("VERIF_TIER", "quick")
     if "--replay" in sys.argv:
@@ -40,7 +52,7 @@ def main():
     results = {}
     violations = []
     for name, cmd, e in runs:
-        r = subprocess.run(cmd, env=e, capture_output=True, text=True)
+        r = run_retry(cmd, env=e, capture_output=True, text=True)
         out = r.stdout.strip().splitlines()
         try:
             results[name] = json.loads(out[-1]) if out else {}
